@@ -27,7 +27,7 @@ ASSUMPTIONS = [
 STUBS = ['numpy.linalg.eigh / eigvalsh recorders (spin-flip obligation)']
 NUMPY_MODELS = ['vdot']
 BOUNDED_RULE = ('random two-qubit density matrices of rank 1..4 (Haar/Bures, near-separable mixtures, boundary states, Werner/isotropic), random local unitaries, random pure states: finiteness, ranges, local-unitary invariance, pure-state formulas, '
-                'monotone relations between concurrence / EOF / GME, non-zero <=> NPT; for every variational model (EOF, concurrence, GME, linear entropy) and random parameter vectors at scales 0.1, 1, 10 with ensemble sizes rank..8: loss >= closed-form value - 1e-7. '
+                'monotone relations between concurrence / EOF / GME, non-zero <=> NPT; for every variational model (EOF, concurrence, GME, linear entropy) and random parameter vectors at scales 1e-8, 1e-4, 0.1, 1, 10 with ensemble sizes rank..8: loss >= closed-form value - 1e-7. '
                 'distinct = distinct (state, unitary) / (model, state, theta); non-trivial = rank >= 2 or entangled')
 EXPLANATION = ''
 
@@ -195,7 +195,7 @@ def job_models(tier, rng):
         rank = int(np.linalg.matrix_rank(rho, tol=1e-9))
         C = float(E.get_concurrence_2qubit(rho)); F = float(E.get_eof_2qubit(rho)); Gm = float(E.get_gme_2qubit(rho))
         for nterm in sorted({max(rank, 2), 4, 8}):        # the Stiefel manifold of the models needs at least 2 ensemble members
-            for scale in (0.1, 1.0, 10.0):
+            for scale in (1e-8, 1e-4, 0.1, 1.0, 10.0):        # the ensemble is invariant under rescaling the Stiefel parameters: tiny vectors are ordinary inputs
                 try:
                     models = [('EntanglementFormationModel', E.EntanglementFormationModel(2, 2, nterm, rank=rank), F), ('ConcurrenceModel', E.ConcurrenceModel(2, 2, nterm, rank=rank), C),
                               ('DensityMatrixLinearEntropyModel', E.DensityMatrixLinearEntropyModel((2, 2), nterm, rank=rank), C * C / 2),
